@@ -142,7 +142,9 @@ def fanout_sweep(ctx, F, prefix, method):
         # the item flows only into clone() and the element's start_send
         itemv = flow.derived(b, {2}, calls=())
         users = [c for c in b.calls() if any(op_local(a) in itemv for a in c.args)]
-        okusers = [c for c in users if strip_generics(c.callee) in ("core::clone::Clone::clone", "futures_sink::Sink::start_send") or strip_generics(c.callee).startswith(("core::mem::", "core::ptr::"))]
+        okusers = [c for c in users if strip_generics(c.callee) in ("core::clone::Clone::clone", "futures_sink::Sink::start_send", "core::option::Option::take", "core::option::Option::unwrap",
+                                                                    "core::option::Option::expect", "core::option::Option::as_ref", "core::option::Option::cloned", "core::option::Option::clone")
+                   or strip_generics(c.callee).startswith(("core::mem::", "core::ptr::"))]
         ctx.check(len(users) == len(okusers) and len(users) >= 2, prefix + ".item-pass-through", "fanout:item-rebuilt",
                   "FanoutMany::start_send hands the item (or a clone of it) to the elements and to nothing else (users: %s)" % [c.name() for c in users], b.span)
         clones = [c for c in cc if flow.root(b, c.args[1], through_calls=())[0] == "call" and flow.root(b, c.args[1], through_calls=())[1].name() == "clone"]
